@@ -8,6 +8,7 @@ import (
 	"encoding"
 	"encoding/hex"
 	"fmt"
+	"slices"
 	"sync"
 	"time"
 
@@ -350,7 +351,7 @@ func (s *MemState) SetDevmod(ctx context.Context, devmod serviceinfo.Devmod, mod
 		return err
 	}
 	return s.with(ctx, protocol.TO2Protocol, func(x *session) error {
-		x.devmod, x.devmodModules, x.devmodDone, x.hasDevmod = b, append([]string{}, modules...), complete, true
+		x.devmod, x.devmodModules, x.devmodDone, x.hasDevmod = b, slices.Clone(modules), complete, true
 		return nil
 	})
 }
@@ -359,14 +360,13 @@ func (s *MemState) Devmod(ctx context.Context) (devmod serviceinfo.Devmod, modul
 	var b []byte
 	var has bool
 	if err = s.with(ctx, protocol.TO2Protocol, func(x *session) error {
-		b, modules, complete, has = x.devmod, append([]string{}, x.devmodModules...), x.devmodDone, x.hasDevmod
+		b, modules, complete, has = x.devmod, slices.Clone(x.devmodModules), x.devmodDone, x.hasDevmod
 		return nil
 	}); err != nil {
 		return
 	}
 	if !has {
-		err = fdo.ErrNotFound
-		return
+		return serviceinfo.Devmod{}, nil, false, fdo.ErrNotFound
 	}
 	err = cbor.Unmarshal(b, &devmod)
 	return
